@@ -224,3 +224,26 @@ def check_record_leaks(ctx, rep, rule, fns):
 def ast_text(node):
     from ..loader import norm as _norm
     return _norm(node)[:60]
+
+
+def cacheview_flag_reset(ctx):
+    """[(fn, node)]: methods of CacheView that replace or empty self.cache without lowering self.cachecomplete in the same
+    method: the flag then claims completeness of a memo that no longer holds the rows (every later pass is served from
+    it and skips the inner table)."""
+    import ast as _ast
+    from ..loader import norm as _norm, own_nodes as _own
+    ci = ctx.project.need_class('petl.util.materialise:CacheView')
+    out = []
+    for name, fn in sorted(ci.methods.items()):
+        resets = [n for n in _own(fn.node) if
+                  (isinstance(n, _ast.Assign) and any(_norm(t) == 'self.cache' for t in n.targets)) or
+                  (isinstance(n, _ast.Call) and _norm(n.func) in ('self.cache.clear',)) or
+                  (isinstance(n, _ast.Delete) and any(_norm(t).startswith('self.cache[') for t in n.targets))]
+        if not resets:
+            continue
+        lowers = [n for n in _own(fn.node) if isinstance(n, _ast.Assign) and
+                  any(_norm(t) == 'self.cachecomplete' for t in n.targets) and
+                  isinstance(n.value, _ast.Constant) and n.value.value is False]
+        if not lowers:
+            out.append((fn, resets[0]))
+    return ci, out
